@@ -1723,3 +1723,232 @@ Proof.
   - rewrite E. destruct (mem a (addrs_of s (cur s))) eqn:Em; [reflexivity|].
     apply mem_false in Em. exfalso. apply Em. apply (Hall (cur s)). rewrite E. left. reflexivity.
 Qed.
+
+(* ====================================================================================== *)
+(* Event hooks across reloads (SIGUSR1 handler: clone / purge / restore; Restart: clone / restore) *)
+Lemma hregister_app g names : forall h h2,
+  hregister g names h = Some h2 -> h2 = h ++ map (fun x => (x, g)) names.
+Proof.
+  induction names as [|x r IH]; intros h h2 H; simpl in *.
+  - injection H as <-. rewrite app_nil_r. reflexivity.
+  - destruct (hmem x h); [discriminate|]. apply IH in H. rewrite H. rewrite <- app_assoc. reflexivity.
+Qed.
+
+Lemma hreload_failed_unchanged s c :
+  snd (hreload s c) = false ->
+  hs_reg (fst (hreload s c)) = hs_reg s /\ hs_cur (fst (hreload s c)) = hs_cur s
+  /\ hs_names (fst (hreload s c)) = hs_names s /\ hs_okg (fst (hreload s c)) = hs_okg s.
+Proof.
+  unfold hreload. destruct (hregister _ _ _) as [h2|]; [destruct (Nat.eqb (hc_fate c) 0)|]; simpl;
+    try discriminate; intros _; destruct (hc_sig c); auto.
+Qed.
+
+Lemma hreload_ok_direct s c :
+  hc_sig c = false -> snd (hreload s c) = true ->
+  hs_reg (fst (hreload s c)) = hs_reg s ++ map (fun x => (x, S (hs_calls s))) (hc_names c)
+  /\ hs_cur (fst (hreload s c)) = S (hs_calls s).
+Proof.
+  unfold hreload. intros Hs. rewrite Hs.
+  destruct (hregister _ _ _) as [h2|] eqn:E; [destruct (Nat.eqb (hc_fate c) 0)|]; simpl; try discriminate.
+  intros _. apply hregister_app in E. auto.
+Qed.
+
+Lemma hreload_ok_sig s c :
+  hc_sig c = true -> snd (hreload s c) = true ->
+  hs_reg (fst (hreload s c)) = map (fun x => (x, S (hs_calls s))) (hc_names c)
+  /\ hs_cur (fst (hreload s c)) = S (hs_calls s).
+Proof.
+  unfold hreload. intros Hs. rewrite Hs.
+  destruct (hregister _ _ _) as [h2|] eqn:E; [destruct (Nat.eqb (hc_fate c) 0)|]; simpl; try discriminate.
+  intros _. apply hregister_app in E. auto.
+Qed.
+
+(* a valid configuration whose hook names are new is always taken over *)
+Lemma hregister_fresh g names : forall h,
+  nodupb names = true -> (forall x, In x names -> hmem x h = false) ->
+  exists h2, hregister g names h = Some h2.
+Proof.
+  induction names as [|x r IH]; intros h Hn Hf; simpl.
+  - eauto.
+  - simpl in Hn. apply andb_true_iff in Hn. destruct Hn as [Hx Hr].
+    rewrite (Hf x (or_introl eq_refl)). apply IH; [exact Hr|].
+    intros y Hy. assert (Hs : hmem y (h ++ [(x, g)]) = hmem y h || Nat.eqb x y).
+    { unfold hmem. rewrite existsb_app. simpl. rewrite orb_false_r. reflexivity. }
+    rewrite Hs. rewrite (Hf y (or_intror Hy)). simpl.
+    destruct (Nat.eqb x y) eqn:E; [|reflexivity]. apply Nat.eqb_eq in E. subst y.
+    apply negb_true_iff in Hx. exfalso.
+    assert (mem x r = true) as Hm. { unfold mem. apply existsb_exists. exists x. split; [exact Hy|apply Nat.eqb_refl]. }
+    rewrite Hm in Hx. discriminate.
+Qed.
+
+(* invariant 1: every registered hook was registered by a generation that was started successfully *)
+Definition hinv_owner (s : hstate) : Prop := forall p, In p (hs_reg s) -> In (snd p) (hs_okg s).
+
+Lemma hinv_owner_init names0 : hinv_owner (hinit names0).
+Proof. intros p Hp. simpl in *. apply in_map_iff in Hp. destruct Hp as (x & <- & _). simpl. auto. Qed.
+
+Lemma hinv_owner_step s c : hinv_owner s -> hinv_owner (fst (hreload s c)).
+Proof.
+  intros Hi. destruct (snd (hreload s c)) eqn:Eok.
+  - unfold hreload in *. destruct (hregister _ _ _) as [h2|] eqn:E; [destruct (Nat.eqb (hc_fate c) 0)|];
+      simpl in *; try discriminate.
+    apply hregister_app in E. subst h2. intros p Hp. simpl in *. apply in_app_or in Hp. destruct Hp as [Hp|Hp].
+    + right. apply Hi. destruct (hc_sig c); [contradiction|exact Hp].
+    + apply in_map_iff in Hp. destruct Hp as (x & <- & _). left. reflexivity.
+  - destruct (hreload_failed_unchanged s c Eok) as (E1 & _ & _ & E4). intros p Hp. rewrite E1 in Hp. rewrite E4. auto.
+Qed.
+
+Lemma hinv_owner_run cs : forall s, hinv_owner s -> hinv_owner (hrun s cs).
+Proof. induction cs as [|c r IH]; intros s Hs; simpl; [exact Hs|]. apply IH. apply hinv_owner_step. exact Hs. Qed.
+
+Lemma hooks_owned_by_started names0 cs p :
+  In p (hs_reg (hrun (hinit names0) cs)) -> In (snd p) (hs_okg (hrun (hinit names0) cs)).
+Proof. apply hinv_owner_run. apply hinv_owner_init. Qed.
+
+(* the generations started successfully are exactly 0 and those whose reload returned success;
+   a generation whose reload failed is never among them *)
+Lemma hokg_bound s c g : In g (hs_okg (fst (hreload s c))) -> In g (hs_okg s) \/ (g = S (hs_calls s) /\ snd (hreload s c) = true).
+Proof.
+  unfold hreload. destruct (hregister _ _ _) as [h2|]; [destruct (Nat.eqb (hc_fate c) 0)|]; simpl; auto.
+  intros [<-|H]; auto.
+Qed.
+
+(* invariant 2 (SIGUSR1 path): the registry is exactly the hooks of the configuration in force *)
+Definition hinv_exact (s : hstate) : Prop := hs_reg s = map (fun x => (x, hs_cur s)) (hs_names s).
+
+Lemma hinv_exact_step s c : hc_sig c = true -> hinv_exact s -> hinv_exact (fst (hreload s c)).
+Proof.
+  intros Hs Hi. destruct (snd (hreload s c)) eqn:Eok.
+  - destruct (hreload_ok_sig s c Hs Eok) as (E1 & E2). unfold hinv_exact. rewrite E1, E2.
+    unfold hreload in *. rewrite Hs in *.
+    destruct (hregister _ _ _) as [h2|]; [destruct (Nat.eqb (hc_fate c) 0)|]; simpl in *; try discriminate. reflexivity.
+  - destruct (hreload_failed_unchanged s c Eok) as (E1 & E2 & E3 & _). unfold hinv_exact. rewrite E1, E2, E3. exact Hi.
+Qed.
+
+Lemma hinv_exact_run cs : forall s, forallb hc_sig cs = true -> hinv_exact s -> hinv_exact (hrun s cs).
+Proof.
+  induction cs as [|c r IH]; intros s Hall Hs; simpl; [exact Hs|].
+  simpl in Hall. apply andb_true_iff in Hall. destruct Hall as [Hc Hr]. apply IH; [exact Hr|]. apply hinv_exact_step; assumption.
+Qed.
+
+Lemma hooks_sigusr1_exactly_current names0 cs :
+  forallb hc_sig cs = true ->
+  let s := hrun (hinit names0) cs in hs_reg s = map (fun x => (x, hs_cur s)) (hs_names s).
+Proof. intros Hall. apply hinv_exact_run; [exact Hall|reflexivity]. Qed.
+
+(* the InstanceRestartEvent of the SIGUSR1 handler is emitted AFTER purgeEventHooks: no hook ever receives it *)
+Lemma hemit_step s c : Forall (fun r => r = []) (hs_emit s) -> Forall (fun r => r = []) (hs_emit (fst (hreload s c))).
+Proof.
+  intros H. unfold hreload. destruct (hregister _ _ _) as [h2|]; [destruct (Nat.eqb (hc_fate c) 0)|]; simpl;
+    destruct (hc_sig c); auto.
+Qed.
+Lemma restart_event_reaches_no_hook names0 cs : Forall (fun r => r = []) (hs_emit (hrun (hinit names0) cs)).
+Proof.
+  assert (G : forall cs s, Forall (fun r => r = []) (hs_emit s) -> Forall (fun r => r = []) (hs_emit (hrun s cs))).
+  { clear. induction cs as [|c r IH]; intros s Hs; simpl; [exact Hs|]. apply IH. apply hemit_step. exact Hs. }
+  apply G. constructor.
+Qed.
+
+Lemma hreload_sig_valid_succeeds s c :
+  hc_sig c = true -> hc_fate c = 0 -> nodupb (hc_names c) = true -> snd (hreload s c) = true.
+Proof.
+  intros Hs Hf Hn. unfold hreload. rewrite Hs, Hf.
+  destruct (hregister_fresh (S (hs_calls s)) (hc_names c) [] Hn) as (h2 & E); [reflexivity|].
+  rewrite E. reflexivity.
+Qed.
+
+Lemma hooks_only_current_refuted :
+  exists names0 cs p, In p (hs_reg (hrun (hinit names0) cs)) /\ snd p <> hs_cur (hrun (hinit names0) cs).
+Proof.
+  exists [0], [{| hc_sig := false; hc_names := [2]; hc_fate := 0 |}], (0, 0). split; [vm_compute; auto|vm_compute; discriminate].
+Qed.
+
+Lemma hooks_only_current_partial names0 cs p :
+  In p (hs_reg (hrun (hinit names0) cs)) ->
+  In (snd p) (hs_okg (hrun (hinit names0) cs)) /\
+  (forallb hc_sig cs = true -> snd p = hs_cur (hrun (hinit names0) cs)).
+Proof.
+  intros Hp. split; [apply hooks_owned_by_started; exact Hp|].
+  intros Hall. pose proof (hooks_sigusr1_exactly_current names0 cs Hall) as E. simpl in E.
+  rewrite E in Hp. apply in_map_iff in Hp. destruct Hp as (x & <- & _). reflexivity.
+Qed.
+
+(* ====================================================================================== *)
+(* generations: who may accept, and nothing of a replaced generation accepts again *)
+Lemma accept_only_by_live s k i s' :
+  reachable s -> step s (LAccept k i) = Some s' ->
+  exists c, nth_error (conns s) k = Some c /\ cst c = CQueued /\ In (caddr c) (addrs_of s i) /\
+            (i = cur s \/ pending s = Some i /\ fate_of s i = 0).
+Proof.
+  intros Hr Hs. simpl in Hs. destruct (nth_error (conns s) k) as [c|] eqn:En; [|discriminate].
+  destruct (cst c) eqn:Ec; try discriminate.
+  destruct (mem i (acc s (caddr c))) eqn:Em; [|discriminate].
+  apply mem_In in Em. destruct (only_live_instances_accept s (caddr c) i Hr Em) as (_ & Ha & Hl).
+  exists c. auto.
+Qed.
+
+Lemma no_answer_after_stop_refuted :
+  exists s k c i s', reachable s /\ rst s = RIdle /\ nth_error (conns s) k = Some c /\ cst c = CAccepted i /\
+                     i <> cur s /\ acc s (caddr c) = [cur s] /\ step s (LAnswer k) = Some s'.
+Proof.
+  destruct (run (init [0; 1] [])
+            [LNew 0 0; LConnect 0; LAccept 0 0; LCall [0; 1] 0; LLoadOk; LCbOk; LDup; LDup; LAdv; LSpawn; LSpawn; LAdv;
+             LStopTimeout; LStop; LReturn]) as [s|] eqn:E; [|vm_compute in E; discriminate].
+  assert (Hr : reachable s). { exists [0; 1], []. eexists. split; [reflexivity|exact E]. }
+  vm_compute in E. injection E as E.
+  exists s, 0, {| caddr := 0; csite := 0; cborn := 0; cst := CAccepted 0 |}, 0.
+  eexists. split; [exact Hr|]. subst s. vm_compute. repeat split; try reflexivity. discriminate.
+Qed.
+
+Lemma cur_stop_old s a : cur (stop_old s a) = cur s.
+Proof. unfold stop_old. destruct (isnil _); reflexivity. Qed.
+
+Lemma step_cur s l s' : step s l = Some s' -> cur s' = cur s \/ (l = LReturn /\ pending s = Some (cur s')).
+Proof.
+  destruct l; simpl; intros H;
+  repeat match type of H with
+         | context [match ?x with _ => _ end] => destruct x eqn:?; try discriminate
+         | context [if ?x then _ else _] => destruct x eqn:?; try discriminate
+         end;
+  injection H as <-; simpl; try rewrite cur_stop_old; auto.
+  right. split; [reflexivity|]. unfold pending. rewrite Heqr. reflexivity.
+Qed.
+
+Lemma cur_monotone ls : forall s s', reachable s -> run s ls = Some s' -> cur s <= cur s'.
+Proof.
+  induction ls as [|l r IH]; intros s s' Hr H; simpl in H.
+  - injection H as <-. apply le_n.
+  - destruct (step s l) as [s1|] eqn:E; [|discriminate].
+    assert (Hr1 := reachable_step _ _ _ Hr E). specialize (IH _ _ Hr1 H).
+    destruct (step_cur _ _ _ E) as [Hc|(_ & Hp)].
+    + rewrite <- Hc. exact IH.
+    + destruct (pending_new_ok s _ (inv_reachable _ Hr) Hp) as (_ & Hlt).
+      apply Nat.le_trans with (cur s1); [apply Nat.lt_le_incl; exact Hlt|exact IH].
+Qed.
+
+(* a generation that has been replaced never accepts again, whatever happens later *)
+Lemma stopped_never_accepts_again s i ls s' a :
+  reachable s -> i < cur s -> run s ls = Some s' -> ~ In i (acc s' a) /\ ~ In i (fdh s' a).
+Proof.
+  intros Hr Hlt Hrun. assert (Hr' := reachable_run _ _ _ Hr Hrun).
+  assert (Hle := cur_monotone _ _ _ Hr Hrun).
+  assert (Hnot : ~ (i = cur s' \/ pending s' = Some i)).
+  { intros [E|E]; [subst i; apply (Nat.lt_irrefl (cur s')); apply Nat.lt_le_trans with (cur s); assumption|].
+    destruct (pending_new_ok s' _ (inv_reachable _ Hr') E) as (_ & Hc).
+    apply (Nat.lt_irrefl i). apply Nat.lt_le_trans with (cur s); [exact Hlt|].
+    apply Nat.le_trans with (cur s'); [exact Hle|apply Nat.lt_le_incl; exact Hc]. }
+  split.
+  - intros Hin. destruct (only_live_instances_accept s' a i Hr' Hin) as (_ & _ & [E|(E & _)]); apply Hnot; auto.
+  - intros Hin. destruct (i_fd _ (inv_reachable _ Hr') a i Hin) as [(E & _)|(E & _)]; apply Hnot; auto.
+Qed.
+
+Lemma no_answer_after_stop_partial s i ls s' a k c :
+  reachable s -> i < cur s -> run s ls = Some s' ->
+  (~ In i (acc s' a) /\ ~ In i (fdh s' a)) /\
+  (nth_error (conns s') k = Some c -> accepted_by (cst c) = Some i ->
+   cborn c <= i /\ In (caddr c) (addrs_of s' i)).
+Proof.
+  intros Hr Hlt Hrun. split; [apply (stopped_never_accepts_again s i ls s' a Hr Hlt Hrun)|].
+  intros Hn Ha. destruct (accepted_by_current_or_later s' k c i (reachable_run _ _ _ Hr Hrun) Hn Ha) as (H1 & _ & H3).
+  auto.
+Qed.
